@@ -344,12 +344,17 @@ class Gen:
         self.world()
         nv = len(self.sc["vars"])
         self.sc["shared"] = []
-        if c.chance(self.cfg.get("shared_p", 0.25)):
+        if c.chance(self.cfg.get("shared_p", 0.35)):
             pool = sorted(c.sample(range(nv), min(2, nv)))
             for _ in range(c.weighted([(1, 3), (2, 1)])):
                 self.sc["shared"].append(self.atom(pool, 0))
         nq = c.weighted([(1, 3), (2, 4), (3, 3)])
         self.sc["queries"] = [self.query(allow_rule=True) for _ in range(nq)]
+        if self.sc["shared"] and nq >= 2 and c.chance(0.35):
+            # swarm knob: the same condition node is placed in every query (the case _eval_parent_ exists for)
+            self.sc["knob_expression_focus"] = True
+            for q in self.sc["queries"]:
+                q["conds"].insert(c.int(0, len(q["conds"])), ["shared", 0])
         ops = self.schedule()
         if c.chance(0.5):
             ops = self.serialise_same_rule_query(ops)
